@@ -294,10 +294,21 @@ var genSamRefNamedQuery bool
 // end are drawn much more often (the SAM form of C05 is about exactly those layouts)
 var genSamOverlapOften bool
 
+var genSamAtBufferBoundary bool
+
 func genSam(r *RNG, disjoint bool, maxIns int) samCase {
 	L := r.Range(10, 120)
+	rname := "ref" + fmt.Sprint(r.Intn(9))
+	if genSamAtBufferBoundary {
+		// a genome whose line in a FASTA file ends a few bytes before a 4096 * 2^k boundary of the file (the sizes through
+		// which a bufio.Scanner's buffer grows): the header that follows the reference record straddles the boundary
+		L = (4096 << uint(r.Intn(2))) - len(">"+rname+"\n") - r.Range(0, 8)
+	}
 	ref := randSeq(r, L, symACGT, false)
-	sc := samCase{ref: ref, rname: "ref" + fmt.Sprint(r.Intn(9)), tags: map[string]bool{}}
+	sc := samCase{ref: ref, rname: rname, tags: map[string]bool{}}
+	if genSamAtBufferBoundary {
+		sc.tags["genome-ends-at-buffer-boundary"] = true
+	}
 	nq := r.Range(1, 6)
 	for qi := 0; qi < nq; qi++ {
 		name := fmt.Sprintf("q%d", qi)
